@@ -11,6 +11,10 @@
 // but hands the bytes of the event stream to the standby one event at a time, when the explored
 // schedule says "deliver", and can cut the stream. A Read on the stream body is the barrier that
 // tells the harness the standby has finished processing everything it was given before.
+// The network also carries the standby's GET /ha/sessions of an attachment (the full sync connectToStream
+// performs once the stream's response header is in): it knows when the active has answered, can hold the
+// answer back on the wire (attach with racepush), and sees the standby close the response body, which the
+// standby does when it is done with the snapshot. An attachment is over only when that has happened.
 package hasync
 
 import (
@@ -21,7 +25,9 @@ import (
 	"fmt"
 	"io"
 	"net/http"
+	"runtime"
 	"sort"
+	"strconv"
 	"strings"
 	"sync"
 	"sync/atomic"
@@ -51,10 +57,25 @@ func (network) RoundTrip(req *http.Request) (*http.Response, error) {
 	if !ok && req.URL.Path == "/ha/sessions/stream" {
 		harnessFail("stream request for an unknown instance " + req.URL.Host)
 	}
+	if ok && req.URL.Path == "/ha/sessions" {
+		return v.(*inst).snapshotRoundTrip(req)
+	}
 	if !ok || req.URL.Path != "/ha/sessions/stream" {
 		return realTransport.RoundTrip(req)
 	}
 	return v.(*inst).openStream(req)
+}
+
+// goid is the id of the calling goroutine (the network uses it to tell whether two requests of the standby were
+// made one after the other by one goroutine).
+func goid() uint64 {
+	var b [64]byte
+	f := strings.Fields(string(b[:runtime.Stack(b[:], false)]))
+	if len(f) < 2 {
+		return 0
+	}
+	id, _ := strconv.ParseUint(f[1], 10, 64)
+	return id
 }
 
 func init() { http.DefaultTransport = network{} }
@@ -111,6 +132,10 @@ func NewSystem(name string, nsess int) *SSystem {
 		return s // the link-level events below only in the systems named link-* and in the random schedules
 	}
 	s.evs = append(s.evs, core.Event{"op": "attach", "id": 0, "midpush": 1})
+	// an attachment during which the answer to the standby's post-attach full sync is on the wire for a while: in
+	// the meantime the active changes session 1, the change goes out on the registered stream and the network
+	// offers it to the standby before it lets the (older) snapshot through
+	s.evs = append(s.evs, core.Event{"op": "attach", "id": 0, "racepush": 1})
 	// a link failure only the standby notices (the active's end of the old stream stays open), and the moment
 	// the active finally notices it
 	s.evs = append(s.evs, core.Event{"op": "disconnect", "id": 0, "half": 1}, core.Event{"op": "oldclose", "id": 0})
@@ -160,6 +185,13 @@ type inst struct {
 	gen     int // current stream (openStream)
 	midArm  func()
 	midDesc map[string]any
+	// the GET /ha/sessions the standby makes while attach() runs (all under mu)
+	snapArm     bool   // attach() is running: the next full-sync request is followed
+	snapEpoch   int    // which attach() the followed request belongs to
+	snapState   int    // snapNone .. snapDone
+	snapRelease bool   // the answer may be handed to the standby
+	snapGo      uint64 // goroutine that made the followed request
+	streamGo    uint64 // goroutine that made the stream request of this attachment (0 = none made)
 	// streams whose standby end is gone but whose active end is still open (disconnect with half)
 	stale    []func()
 	handlers atomic.Int32 // stream handlers of the active that have not returned
@@ -269,6 +301,83 @@ func (in *inst) unhold() {
 	}
 }
 
+const (
+	snapNone     = iota // no full-sync request seen during this attach()
+	snapAsked           // the request is with the active
+	snapHeld            // the active has answered (its snapshot is taken); the answer is on the wire
+	snapReturned        // the standby has the answer and works on it
+	snapDone            // the standby closed the response body (or the request failed): it is done with the snapshot
+)
+
+// snapshotRoundTrip is the network's handling of the standby's GET /ha/sessions. Outside attach() it passes
+// through. During attach() the complete answer is received first (so the moment the snapshot was taken is
+// behind us), then it stays on the wire until attach() lets it through.
+func (in *inst) snapshotRoundTrip(req *http.Request) (*http.Response, error) {
+	in.mu.Lock()
+	follow := in.snapArm && in.snapState == snapNone && !in.free
+	epoch := in.snapEpoch
+	if follow {
+		in.snapState, in.snapGo = snapAsked, goid()
+		in.cond.Broadcast()
+	}
+	in.mu.Unlock()
+	if !follow {
+		return realTransport.RoundTrip(req)
+	}
+	set := func(st int) {
+		in.mu.Lock()
+		if in.snapEpoch == epoch {
+			in.snapState = st
+			in.cond.Broadcast()
+		}
+		in.mu.Unlock()
+	}
+	resp, err := realTransport.RoundTrip(req)
+	if err != nil {
+		set(snapDone)
+		return nil, err
+	}
+	body, rerr := io.ReadAll(resp.Body)
+	resp.Body.Close()
+	stop := context.AfterFunc(req.Context(), func() { in.mu.Lock(); in.cond.Broadcast(); in.mu.Unlock() })
+	defer stop()
+	in.mu.Lock()
+	if in.snapEpoch == epoch {
+		in.snapState = snapHeld
+		in.cond.Broadcast()
+	}
+	for in.snapEpoch == epoch && !in.snapRelease && req.Context().Err() == nil {
+		in.cond.Wait()
+	}
+	in.mu.Unlock()
+	if err := req.Context().Err(); err != nil {
+		set(snapDone)
+		return nil, err
+	}
+	set(snapReturned)
+	resp.Body = &snapBody{r: io.MultiReader(bytes.NewReader(body), errReader{rerr}), done: func() { set(snapDone) }}
+	return resp, nil
+}
+
+type errReader struct{ err error }
+
+func (e errReader) Read([]byte) (int, error) {
+	if e.err != nil {
+		return 0, e.err
+	}
+	return 0, io.EOF
+}
+
+// snapBody is the body of a followed full-sync answer; closing it is the standby saying it is done with it.
+type snapBody struct {
+	r    io.Reader
+	once sync.Once
+	done func()
+}
+
+func (b *snapBody) Read(p []byte) (int, error) { return b.r.Read(p) }
+func (b *snapBody) Close() error               { b.once.Do(b.done); return nil }
+
 // openStream is the network's handling of the standby's stream request.
 func (in *inst) openStream(req *http.Request) (*http.Response, error) {
 	// the upstream connection lives until the harness closes it (cut / oldclose), not until the standby gives up
@@ -283,6 +392,7 @@ func (in *inst) openStream(req *http.Request) (*http.Response, error) {
 	in.upstream, in.cancelUp = resp.Body, cancel
 	in.gen++
 	gen := in.gen
+	in.streamGo = goid()
 	in.mu.Unlock()
 	up := resp.Body
 	go in.pump(up, gen)
@@ -509,7 +619,7 @@ func (in *inst) Apply(ev core.Event) map[string]any {
 	op := ev["op"].(string)
 	id := toInt(ev["id"])
 	res := map[string]any{"did": false, "v": 0, "ok": true, "clients": 0, "arrived": false, "none": false, "kind": "", "mid": 0, "mv": 0, "dropped": 0,
-		"middid": false, "midop": "", "midid": 0, "midv": 0}
+		"middid": false, "midop": "", "midid": 0, "midv": 0, "midhanded": false}
 	if op != "add" && op != "update" && op != "delete" {
 		in.unhold()
 	}
@@ -564,7 +674,18 @@ func (in *inst) Apply(ev core.Event) map[string]any {
 			in.midArm = func() { in.midDesc = in.changeNow(k) }
 			in.mu.Unlock()
 		}
-		res["ok"] = in.attach()
+		if k := toInt(ev["racepush"]); k > 0 {
+			ok, d, handed := in.attachRace(k)
+			res["ok"] = ok
+			if d != nil && ok {
+				for kk, v := range d {
+					res[kk] = v
+				}
+				res["midhanded"] = handed
+			}
+		} else {
+			res["ok"] = in.attach()
+		}
 		in.mu.Lock()
 		in.midArm = nil
 		in.mu.Unlock()
@@ -657,37 +778,145 @@ func (in *inst) changeNow(k int) map[string]any {
 }
 
 // attach runs the standby's own connectToStream; it returns once the standby has consumed the
-// initial heartbeat and waits for stream data (or has given up).
+// initial heartbeat and waits for stream data (or has given up), and is done with the answer to the
+// full sync it makes on the way.
 func (in *inst) attach() bool {
+	a := in.beginAttach(true)
+	return a.finish(false)
+}
+
+// attachRace is attach with the answer to the standby's post-attach full sync held on the wire: once the active
+// has answered, the active changes session k and pushes the change; it goes out on the registered stream and the
+// network offers it to the standby at once. Only then does the snapshot answer get through. If the standby took
+// the change from the stream in the meantime, handed is true; otherwise the change is still in the network's
+// queue when attachRace returns, exactly as after a plain attach followed by that change.
+func (in *inst) attachRace(k int) (ok bool, desc map[string]any, handed bool) {
+	a := in.beginAttach(false)
+	held := in.waitFor(20*time.Second, func() bool { return a.ended() || in.snapState >= snapHeld || a.noSnapshot() })
 	in.mu.Lock()
-	base := in.idle
-	in.closed = false
+	held = held && in.snapState == snapHeld
 	in.mu.Unlock()
-	done := make(chan error, 1)
-	in.streamDone = done
+	if held {
+		in.mu.Lock()
+		arrived0 := in.arrived
+		in.mu.Unlock()
+		desc = in.changeNow(k)
+		onStream := in.active.VerifSSEClients() > 0
+		if onStream {
+			if !in.waitFor(arrivalTimeout(), func() bool { return in.arrived > arrived0 || in.closed }) {
+				missSeen.Store(true)
+				onStream = false
+			}
+		}
+		if onStream {
+			in.mu.Lock()
+			in.release++
+			in.idleAfterHand = false
+			// Can the standby read the stream while the snapshot answer is outstanding? Not if the goroutine that
+			// opened the stream is the one now waiting for that answer and nothing has read from the stream yet:
+			// then its reading of the stream comes after. Otherwise something else may be reading: give it time.
+			sequential := in.snapGo == in.streamGo && in.idle == a.base
+			in.cond.Broadcast()
+			in.mu.Unlock()
+			if !sequential {
+				in.waitFor(2*time.Second, func() bool { return (in.release == 0 && in.idleAfterHand) || in.closed || a.ended() })
+			}
+			in.mu.Lock()
+			if in.release > 0 { // not taken: the offer ends here, the change stays queued
+				in.release = 0
+			} else {
+				handed = true
+			}
+			in.mu.Unlock()
+		}
+	}
+	ok = a.finish(handed)
+	return ok, desc, handed
+}
+
+type attachment struct {
+	in   *inst
+	base int
+	done chan error
+	end  bool
+	// when the standby was first seen waiting for stream data without having asked for a snapshot
+	idleNoSnap time.Time
+}
+
+// ended (under in.mu): connectToStream has returned.
+func (a *attachment) ended() bool {
+	if a.end {
+		return true
+	}
+	select {
+	case err := <-a.done:
+		a.done <- err
+		a.end = true
+	default:
+	}
+	return a.end
+}
+
+// noSnapshot (under in.mu): the standby reads the stream (or has given the stream up) and still has not asked
+// for a snapshot a while later. Never the case with a connectToStream that makes its full sync before it reads
+// the stream: no time is spent here then.
+func (a *attachment) noSnapshot() bool {
+	in := a.in
+	if in.snapState != snapNone || (in.idle < a.base+2 && !a.ended()) {
+		return false
+	}
+	if a.idleNoSnap.IsZero() {
+		a.idleNoSnap = time.Now()
+		time.AfterFunc(310*time.Millisecond, func() { in.mu.Lock(); in.cond.Broadcast(); in.mu.Unlock() })
+	}
+	return time.Since(a.idleNoSnap) >= 300*time.Millisecond
+}
+
+func (in *inst) beginAttach(letSnapshotThrough bool) *attachment {
+	a := &attachment{in: in, done: make(chan error, 1)}
+	in.mu.Lock()
+	a.base = in.idle
+	in.closed = false
+	in.snapEpoch++
+	in.snapArm, in.snapState, in.snapRelease, in.snapGo, in.streamGo = true, snapNone, letSnapshotThrough, 0, 0
+	in.mu.Unlock()
+	in.streamDone = a.done
 	go func() {
-		done <- in.standby.VerifConnectToStream()
+		a.done <- in.standby.VerifConnectToStream()
 		in.mu.Lock()
 		in.cond.Broadcast()
 		in.mu.Unlock()
 	}()
-	ended := false
+	return a
+}
+
+// finish lets a held snapshot answer through and waits until the attachment has settled: connectToStream has
+// returned, or the standby waits for stream data (having processed what it was handed) and is done with the
+// snapshot it asked for.
+func (a *attachment) finish(handed bool) bool {
+	in := a.in
+	in.mu.Lock()
+	in.snapRelease = true
+	in.cond.Broadcast()
+	in.mu.Unlock()
+	snapSettled := func() bool { return in.snapState == snapDone || a.noSnapshot() }
 	ok := in.waitFor(20*time.Second, func() bool {
-		select {
-		case err := <-done:
-			done <- err
-			ended = true
-			return true
-		default:
+		if a.ended() {
+			// a stream that was opened may have left a full sync running beside the reader
+			return in.streamGo == 0 || snapSettled()
 		}
-		return in.idle >= base+2
+		return in.idle >= a.base+2 && snapSettled() && (!handed || in.idleAfterHand)
 	})
+	in.mu.Lock()
+	in.snapArm = false
+	ended := a.ended()
+	in.mu.Unlock()
 	if !ok {
 		harnessFail(fmt.Sprintf("%s: attach did not settle", in.s.name))
 		return false
 	}
 	if ended {
-		<-done
+		<-a.done
 		in.streamDone = nil
 		return false
 	}
